@@ -160,7 +160,7 @@ func skolemGoal(goal string, id int) (newGoal string, sks []sexprBinder) {
 
 // skolemInstances returns instances of the single-variable universal facts among the assertions at the
 // skolem constants (and at shifted indices mentioned by those instances).
-func skolemInstances(asserts []string, sks []sexprBinder) []string {
+func skolemInstances(asserts []string, sks []sexprBinder, keys []sexprBinder) []string {
 	type uni struct {
 		v, sort, body string
 	}
@@ -217,6 +217,54 @@ func skolemInstances(asserts []string, sks []sexprBinder) []string {
 			}
 		}
 		return made
+	}
+	// map-iteration keys (the current key of each enclosing range loop) are the other terms a goal
+	// about "every key" has to be compared with: single-variable facts are instantiated at them, and
+	// facts with two or three binders at every combination of skolem constants and keys by sort
+	if len(keys) > 0 && len(keys) <= 6 {
+		for _, k := range keys {
+			instAt(k.name, k.sort)
+		}
+		cands := append(append([]sexprBinder(nil), sks...), keys...)
+		for _, a := range asserts {
+			for _, c := range topConjuncts(a) {
+				bs, body, ok := splitForall(c)
+				if !ok || len(bs) < 2 || len(bs) > 3 {
+					continue
+				}
+				combos := [][]string{{}}
+				for _, b := range bs {
+					var next [][]string
+					for _, co := range combos {
+						for _, cd := range cands {
+							if cd.sort == b.sort {
+								next = append(next, append(append([]string(nil), co...), cd.name))
+							}
+						}
+					}
+					combos = next
+					if len(combos) > 27 {
+						break
+					}
+				}
+				if len(combos) > 27 {
+					continue
+				}
+				for _, co := range combos {
+					if len(co) != len(bs) {
+						continue
+					}
+					inst := body
+					for i := range bs {
+						inst = strings.ReplaceAll(inst, bs[i].name, co[i])
+					}
+					if !seen[inst] && len(inst) < 20000 {
+						seen[inst] = true
+						out = append(out, inst)
+					}
+				}
+			}
+		}
 	}
 	for _, sk := range sks {
 		first := instAt(sk.name, sk.sort)
